@@ -17,7 +17,7 @@ def gen_aliases(rng, names):
     """Alias map over `names`: many-to-one, chains up to 3, aliases of aliases, self-maps of variables."""
     al = {}
     topo = set()
-    pool = ['GDP', 'CONS', 'INV', 'K1', 'K2', 'K3', 'Q', 'R_']
+    pool = ['GDP', 'CONS', 'INV', 'K1', 'K2', 'K3', 'Q', 'R_', '_gdp', 'gdp', '__k']  # (an alias is a name like any other: it may begin with an underscore, differ from another only by case)
     rng.shuffle(pool)
     for _ in range(rng.randint(1, 5)):
         if not pool:
